@@ -38,7 +38,7 @@ type stgWorld struct {
 	reopenedA bool
 }
 
-func (w *stgWorld) bad(s string) { w.viol[s] = true }
+func (w *stgWorld) bad(s string) { sched.Own(func() { w.viol[s] = true }) }
 
 func storageSetup(sc scenario, seq *int) sched.Harness {
 	*seq++
@@ -228,7 +228,7 @@ func (w *stgWorld) final(sc scenario) {
 }
 
 func init() {
-	register(family{Name: "storage", Setup: storageSetup, Scenarios: []scenario{
+	register(family{Name: "storage", RaceOK: true, Setup: storageSetup, Scenarios: []scenario{
 		{Name: "idle", Roles: []string{"snapshot", "idle", "query"}},
 		{Name: "delete", Roles: []string{"snapshot", "deleteA", "idle"}},
 		{Name: "closed", Roles: []string{"closedA", "snapshot", "idle", "query"}},
